@@ -81,7 +81,9 @@ def _trim_common_context(target: str, new_val: str) -> tuple[int, int]:
         text_slice = target[:prefix_len]
         b_count = text_slice.count("**")
         u_count = text_slice.count("_")
-        if b_count % 2 != 0 or u_count % 2 != 0:
+        # A cut between the two asterisks of a bold marker leaves half a marker on either side
+        splits_marker = prefix_len < len(target) and target[prefix_len - 1] == "*" and target[prefix_len] == "*"
+        if b_count % 2 != 0 or u_count % 2 != 0 or splits_marker:
             prefix_len -= 1
         else:
             break
@@ -105,7 +107,9 @@ def _trim_common_context(target: str, new_val: str) -> tuple[int, int]:
         text_slice = target[len(target) - suffix_len :]
         b_count = text_slice.count("**")
         u_count = text_slice.count("_")
-        if b_count % 2 != 0 or u_count % 2 != 0:
+        cut = len(target) - suffix_len
+        splits_marker = cut > 0 and target[cut - 1] == "*" and target[cut] == "*"
+        if b_count % 2 != 0 or u_count % 2 != 0 or splits_marker:
             suffix_len -= 1
         else:
             break
